@@ -442,7 +442,7 @@ func (tr *fnTrans) spec(x Expr, env *specEnv) (Term, error) {
 		}
 		h := env.heapTerm("A_" + b.T.Elem.Tag())
 		tr.touchHeap("A_"+b.T.Elem.Tag(), b.T.Elem, true)
-		return T(sel(sel(h, slArr(b.S)), app("+", slOff(b.S), i.S)), b.T.Elem), nil
+		return T(app("at_"+b.T.Elem.Tag(), h, b.S, i.S), b.T.Elem), nil
 	case EField:
 		b, err := tr.spec(x.X, env)
 		if err != nil {
